@@ -28,11 +28,14 @@ def preflight(tier):
     return None
 
 
-def _table(ctx, n):
+def _table(ctx, n, missing=False):
     import z3
     from symx import sympd
     from symx.core import SNum, SBool
     a = [SNum(z3.Real("a%d" % i)) for i in range(n)]
+    if missing:
+        # a numeric column of a text file with missing cells (empty fields): missing iff the symbolic bit is set
+        a = [sympd.MaybeNA(SBool(z3.Bool("a%d_missing" % i)), x) for i, x in enumerate(a)]
     c = [SBool(z3.Bool("c%d" % i)) for i in range(n)]
     b = ["str%d" % i for i in range(n)]
     return sympd.DataFrame({"a": a, "b": b, "c": c}), dict(a=a, b=b, c=c)
@@ -40,7 +43,13 @@ def _table(ctx, n):
 
 def _cell_eq(x, y):
     import z3
-    from symx import core
+    from symx import core, sympd, vfs
+    if isinstance(x, vfs.RawText) or isinstance(y, vfs.RawText):
+        return z3.BoolVal(x is y)            # text where a parsed value (or NaN) is expected
+    if isinstance(x, sympd.MaybeNA) or isinstance(y, sympd.MaybeNA):
+        if not (isinstance(x, sympd.MaybeNA) and isinstance(y, sympd.MaybeNA)):
+            return z3.BoolVal(False)
+        return z3.And(core.zbool(x.na) == core.zbool(y.na), z3.Or(core.zbool(x.na), core._z(x.value) == core._z(y.value)))
     if isinstance(x, core.Sym) or isinstance(y, core.Sym):
         try:
             return core._z(x) == core._z(y)
@@ -59,7 +68,7 @@ def sym_reader(ctx, cfg):
     S, T = setup()
     n, kind = cfg["n"], cfg["kind"]
     vfs.reset()
-    df, cells = _table(ctx, n)
+    df, cells = _table(ctx, n, bool(cfg.get("missing")))
     names = list(COLS)
     if kind == "frame":
         reader = T.DataFrameReader(df)
@@ -213,6 +222,11 @@ def harnesses(tier):
             hs.append(Harness("reader[%s,N=%d]" % (kind, n), dict(n=n, kind=kind), sym_reader, real="reader", functions=fs,
                               bounds=dict(rows=n, chunk_size="1..N+1", column_choices=len(COLUMN_CHOICES)), stubs=stubs,
                               assumptions=["CSV/Parquet codecs round-trip values (trusted)", "3 columns: numeric, string, bool"], sample_rate=0.3))
+    for kind in ("csv", "mapped_csv"):
+        for n in ((2,) if tier == "quick" else (2, 3)):
+            hs.append(Harness("reader[%s,N=%d,numeric column with missing cells]" % (kind, n), dict(n=n, kind=kind, missing=True), sym_reader, real="reader", functions=rf[kind],
+                              bounds=dict(rows=n, chunk_size="1..N+1", column_choices=len(COLUMN_CHOICES)), stubs=stubs + ["read_csv(na_filter=False): a column with an empty field among the rows parsed together comes back as text"],
+                              assumptions=["CSV codec round-trips values (trusted)", "missing cells only in the numeric column"], sample_rate=0.3))
     wf = {"csv": [T.CSVFileWriter.initialize, T.CSVFileWriter.append_data, T.TabularDataWriter.from_suffix],
           "parquet": [T.ParquetFileWriter.initialize, T.ParquetFileWriter.append_data, T.ParquetFileWriter.finalize],
           "buffered_csv": [T.BufferedWriter.append_data, T.BufferedWriter._write_buffer, T.BufferedWriter._buffer_slice, T.BufferedWriter.finalize],
@@ -237,7 +251,7 @@ def harnesses(tier):
 def _real_table(inp):
     import pandas as pd
     n = len(inp["a"])
-    return pd.DataFrame({"a": [float(x) for x in inp["a"]], "b": ["str%d" % i for i in range(n)], "c": [bool(x) for x in inp["c"]]})
+    return pd.DataFrame({"a": [float("nan") if x is None else float(x) for x in inp["a"]], "b": ["str%d" % i for i in range(n)], "c": [bool(x) for x in inp["c"]]})
 
 
 def _same(df, exp, want):
@@ -249,8 +263,11 @@ def _same(df, exp, want):
         g = list(df[c])
         e = list(exp[c])
         for x, y in zip(g, e):
-            if isinstance(y, float):
-                if abs(float(x) - y) > 1e-12 * max(1, abs(y)):
+            if isinstance(y, float) and y != y:
+                if not (isinstance(x, float) and x != x):
+                    return "column %s: %s vs %s (a missing cell must stay missing)" % (c, g, e)
+            elif isinstance(y, float):
+                if isinstance(x, str) or x != x or abs(float(x) - y) > 1e-12 * max(1, abs(y)):
                     return "column %s: %s vs %s" % (c, g, e)
             elif (str(x) != str(y)) if isinstance(y, str) else (bool(x) != bool(y)):
                 return "column %s: %s vs %s" % (c, g, e)
